@@ -147,6 +147,36 @@ def _is_int_expr(e, ints):
     return False
 
 
+def always_exits(block):
+    """The statement list always ends in break / return / raise."""
+    if not block:
+        return False
+    last = block[-1]
+    if isinstance(last, (ast.Break, ast.Return, ast.Raise)):
+        return True
+    if isinstance(last, ast.If):
+        return always_exits(last.body) and always_exits(last.orelse)
+    return False
+
+
+def in_exiting_block(body, node):
+    """`node` occurs in a statement list of the loop body `body` (not inside a deeper loop) whose remainder always leaves the loop."""
+    def walk(block):
+        for i, s_ in enumerate(block):
+            if any(x is node for x in ast.walk(s_)):
+                if always_exits(block[i:]):
+                    return True
+                if isinstance(s_, ast.If):
+                    return walk(s_.body) or walk(s_.orelse)
+                if isinstance(s_, ast.Try):
+                    return walk(s_.body) or any(walk(h.body) for h in s_.handlers) or walk(s_.orelse) or walk(s_.finalbody)
+                if isinstance(s_, ast.With):
+                    return walk(s_.body)
+                return False
+        return False
+    return walk(body)
+
+
 class TermExecutor(Executor):
     """Abstract executor with precise integers, monotone inner-loop invariants and regex match widths."""
 
@@ -167,11 +197,69 @@ class TermExecutor(Executor):
                 d = _monotone(body, name)
                 if d:
                     mono[name] = (d, ops.int_term(cur))
+                else:
+                    mono[name] = ("?", ops.int_term(cur))
+        # names stored only on paths that leave the loop keep their entry value at every later loop head
+        keep = {}
+        for name in names:
+            stores = [n for s_ in body for n in ast.walk(s_) if isinstance(n, ast.Name) and n.id == name and isinstance(n.ctx, ast.Store)]
+            if stores and all(in_exiting_block(body, n) for n in stores):
+                keep[name] = st.lookup(name)
         super().havoc_loop_state(st, body, spec, extra_names)
+        for name, val in keep.items():
+            if val is not None:
+                st.bind(name, val)
+                mono.pop(name, None)
+        # names without a syntactic `+= k` shape: infer `v >= v_entry` by proving it inductive on the real body
+        # (one symbolic execution of the body from the havocked state; cached per loop)
+        unknown = [n for n, (d, _o) in mono.items() if d == "?"]
+        if unknown:
+            inferred = self._infer_monotone(st, body, unknown)
+            for n in unknown:
+                if inferred.get(n):
+                    mono[n] = (inferred[n], mono[n][1])
+                else:
+                    del mono[n]
         for name, (d, old) in mono.items():
             new = st.lookup(name)
             if isinstance(new, VInt):
                 st.assume(ops.int_term(new) >= old if d == "inc" else ops.int_term(new) <= old)
+
+    def _infer_monotone(self, st, body, names):
+        cache = self.__dict__.setdefault("_mono_cache", {})
+        key = id(body[0]) if body else 0
+        if key in cache:
+            return cache[key]
+        res = {}
+        cache[key] = res                      # nested re-entry sees "nothing inferred"
+        if getattr(self, "_inferring", 0) >= 2:
+            return res
+        self._inferring = getattr(self, "_inferring", 0) + 1
+        try:
+            trial = st.fork()
+            v0 = {n: ops.int_term(trial.lookup(n)) for n in names if isinstance(trial.lookup(n), VInt)}
+            ends = []
+            for o in self.exec_block(body, trial):
+                if o.kind in ("fall", "continue"):
+                    ends.append(o.st)
+            for n, t0 in v0.items():
+                ok_inc = True
+                for e in ends:
+                    v1 = e.lookup(n)
+                    if not isinstance(v1, VInt):
+                        ok_inc = False
+                        break
+                    r = solve.check_vc(e.pc, ops.int_term(v1) >= t0, 3000, want_model=False, use_cvc5=False)
+                    if r.status != "proved":
+                        ok_inc = False
+                        break
+                if ok_inc:
+                    res[n] = "inc"
+        except (Unsupported, PathLimit):
+            pass
+        finally:
+            self._inferring -= 1
+        return res
 
     def s_While(self, s, st):
         """Inner loops: peel the first iteration (precise), then cut the rest with the monotone invariant."""
